@@ -628,13 +628,25 @@ fn order_free(c: &OwnedSpendBundleConditions) -> String {
     bundle_s(&c)
 }
 
-fn c06_pair(o: &mut Out, kind: &str, mempool: bool, f1: u32, t1: &T, f2: u32, t2: &T) {
+fn c06_pair(o: &mut Out, kind: &str, mempool: bool, f1: u32, t1: &T, f2: u32, t2: &T) { c06_pair_lim(o, kind, mempool, f1, t1, f2, t2, None); }
+
+/// the pair under the block maximum (`None`) or under a given cost limit for both runs
+fn c06_pair_lim(o: &mut Out, kind: &str, mempool: bool, f1: u32, t1: &T, f2: u32, t2: &T, lim: Option<u64>) {
     let (b1, b2) = (to_bytes(t1), to_bytes(t2));
     let mut pks = vec![]; valid_pks(t1, &mut pks); valid_pks(t2, &mut pks);
     let pk_s = if pks.is_empty() { "-".to_string() } else { pks.iter().map(hex::encode).collect::<Vec<_>>().join(",") };
-    let line = format!("C06 {} {} {} {} {} {} {}", kind, if mempool { "m" } else { "e" }, f1, f2, pk_s, hex::encode(&b1), hex::encode(&b2));
-    let r1 = run_parse_owned(mempool, f1, 11_000_000_000, 0, &b1);
-    let r2 = run_parse_owned(mempool, f2, 11_000_000_000, 0, &b2);
+    let mut line = format!("C06 {} {} {} {} {} {} {}", kind, if mempool { "m" } else { "e" }, f1, f2, pk_s, hex::encode(&b1), hex::encode(&b2));
+    if let Some(l) = lim { line.push_str(&format!(" {l}")); }
+    let limit = lim.unwrap_or(11_000_000_000);
+    let r1 = run_parse_owned(mempool, f1, limit, 0, &b1);
+    let r2 = run_parse_owned(mempool, f2, limit, 0, &b2);
+    // an accepted permutation pair is examined again with the budget equal to the cost (and one below): the
+    // verdict at the exact budget must not depend on which condition happens to be charged last
+    if lim.is_none() && kind == "perm" { if let Ok(Ok(c)) = &r1 { if c.cost > 0 && c.cost < 11_000_000_000 {
+        let cost = c.cost;
+        c06_pair_lim(o, kind, mempool, f1, t1, f2, t2, Some(cost));
+        c06_pair_lim(o, kind, mempool, f1, t1, f2, t2, Some(cost - 1));
+    }}}
     let show = |r: &Result<Result<OwnedSpendBundleConditions, ValidationErr>, String>| match r { Ok(Ok(c)) => bundle_s(c), Ok(Err(e)) => { let s = err_s(e); if let Some(i) = s.find(" ~") { s[..i].to_string() } else { s } }, Err(e) => e.clone() };
     // the property on the two implementation results
     let prop = match (kind, &r1, &r2) {
@@ -656,7 +668,7 @@ pub fn run_c06(o: &mut Out, seed: u64, thorough: bool, replay: Option<Vec<String
             let mut a = Allocator::new();
             let n1 = node_from_bytes(&mut a, &hex::decode(t[6]).unwrap()).unwrap(); let n2 = node_from_bytes(&mut a, &hex::decode(t[7]).unwrap()).unwrap();
             let (t1, t2) = (node_to_t(&a, n1), node_to_t(&a, n2));
-            c06_pair(o, t[1], t[2] == "m", t[3].parse().unwrap(), &t1, t[4].parse().unwrap(), &t2); }
+            c06_pair_lim(o, t[1], t[2] == "m", t[3].parse().unwrap(), &t1, t[4].parse().unwrap(), &t2, Some(t.get(8).map_or(11_000_000_000, |x| x.parse().unwrap()))); }
         return;
     }
     let p = pools();
